@@ -1132,11 +1132,11 @@ func c15Enumerate(tier string, r *rand.Rand, nExtra int) []c15Case {
 					cases[len(cases)-1].Modes2 = append([]c15Mode{}, m2...)
 				}
 				seq([]c15Mode{a, L[0]}, []c15Mode{b, L[0]})
-				if tier == "thorough" || (ai+bi+ei)%2 == 0 {
+				if tier == "thorough" || (ai+bi+ei)%3 == 0 {
 					seq([]c15Mode{L[3], a}, []c15Mode{L[3], b})
 					seq([]c15Mode{L[1], a, L[0]}, []c15Mode{L[1], b, L[0]})
 				}
-				if tier == "thorough" || (ai*3+bi+ei)%5 == 0 {
+				if tier == "thorough" || (ai*3+bi+ei)%7 == 0 {
 					seq([]c15Mode{a, b}, []c15Mode{b, a})
 					seq([]c15Mode{a, L[0], L[0]}, []c15Mode{b, L[4], L[0]})
 					seq([]c15Mode{a}, []c15Mode{b})
